@@ -123,7 +123,7 @@ def run(ctx, proofs_ok):
     CASES.clear()
     wops = window()
     apicheck.run_resp_streams(ctx, [
-        {"label": "WATCH/MULTI/EXEC with an interfering connection over all families", "fams": ["strings", "keyspace", "lists", "hashes", "sets", "zs", "tx", "tx", "tx"],
+        {"label": "WATCH/MULTI/EXEC with an interfering connection over all families", "fams": ["strings", "keyspace", "lists", "hashes", "sets", "zs", "geo", "tx", "tx", "tx"],
          "n": (2500, 8000), "count": (3, 30), "conns": 2},
     ], extra=[("every writing command x every prior type inside the WATCH..EXEC window (issued by another client and by the watcher), non-writers, watch endings", wops)])
     try:
@@ -144,7 +144,12 @@ def run(ctx, proofs_ok):
         sub = lambda args: tuple(K if a == "K" else a for a in args)
         geo += [c("c2", *sub(st)) for st in setup] + [c("c1", "WATCH", K), "dump", c("c2", *sub(w)), "dump", c("c1", "MULTI"), c("c1", "SET", f"gm{i}", "1"), c("c1", "EXEC"), c("c1", "EXISTS", f"gm{i}")]
         cases.append((len(geo) - 7, K, " ".join(sub(w))))
-    g, _ = vlib.run_pair(ctx, geo, vlib.build_harness(ctx), "geo")
+    # ... and, since the GEO commands have a model (Model/Handler4.lean), the same windows against the model: GEOADD's
+    # reply, the watch flag it sets, EXEC's null
+    hg = vlib.build_harness(ctx)
+    if vlib.correspond_stream(ctx, hg, geo, "geowatch", "GEOADD inside a WATCH .. EXEC window of another connection (reply, watch signal, EXEC's null) against the model"):
+        return
+    g, _ = vlib.run_pair(ctx, geo, hg, "geo")
     ctx.cov["evaluations"] += len(geo)
     for (i, K, text) in cases:
         if i + 6 < len(g):
